@@ -14,6 +14,10 @@ SHARED = LEAN_DIR / "build"                                   # Spec.olean only 
 BUILD = SHARED / f"run_{os.getpid()}"
 
 
+THM = re.compile(r"^(theorem|lemma)\s+([A-Za-z0-9_'.]+)")
+ERR = re.compile(r"^(.*?):(\d+):(\d+): (error|warning)(?:\([^)]*\))?: (.*)$")
+
+
 def _cleanup():
     import shutil
     shutil.rmtree(BUILD, ignore_errors=True)
@@ -56,22 +60,51 @@ def generate_gen():
     from .py2lean import generate
     text, index, dropped, errors = generate(Front())
     BUILD.mkdir(exist_ok=True, parents=True)
-    (BUILD / "Gen.lean").write_text("import Spec\nopen Finset Real\nset_option linter.unusedVariables false\n" + text)
-    rc, out, secs = _lean(["-o", str(BUILD / "Gen.olean"), str(BUILD / "Gen.lean")])
+    header = "import Spec\nopen Finset Real\nset_option linter.unusedVariables false\n"
+    rc, out, secs = 1, "", 0.0
+    # a definition that does not elaborate (a function outside the translatable subset that slipped through) is removed and reported as missing,
+    # so that it only takes the theorems about it with it, not every theorem of every property
+    for _round in range(4):
+        (BUILD / "Gen.lean").write_text(header + text)
+        rc, out, s1 = _lean(["-o", str(BUILD / "Gen.olean"), str(BUILD / "Gen.lean")])
+        secs += s1
+        if rc == 0 and "error" not in out:
+            break
+        lines = (header + text).split("\n")
+        bad_lines = sorted({int(m.group(2)) for m in (ERR.match(l) for l in out.split("\n")) if m and m.group(4) == "error"})
+        bad_defs = set()
+        for L in bad_lines:
+            k = L - 1
+            while k >= 0 and not re.match(r"(noncomputable )?def (\S+)", lines[k]):
+                k -= 1
+            if k >= 0:
+                bad_defs.add(re.match(r"(noncomputable )?def (\S+)", lines[k]).group(2))
+        if not bad_defs:
+            break
+        kept = []
+        for ln in text.split("\n"):
+            m = re.match(r"(noncomputable )?def (\S+)", ln)
+            if m and m.group(2) in bad_defs:
+                continue
+            kept.append(ln)
+        text = "\n".join(kept)
+        for d in sorted(bad_defs):
+            fnq = next((e["function"] for e in index if e["def"] == d), d)
+            errors.append({"function": fnq, "label": d, "error": "generated definition does not elaborate in Lean (function outside the translatable subset)", "defs": [d]})
+        index = [e for e in index if e["def"] not in bad_defs]
     res = {"rc": rc, "out": out, "index": index, "dropped": dropped, "errors": errors, "secs": secs, "text": text}
     if rc == 0:
         (BUILD / "Common.lean").write_text("import Spec\nimport Gen\n" + (LEAN_DIR / "Common.lean").read_text())
         rc2, out2, secs2 = _lean(["-o", str(BUILD / "Common.olean"), str(BUILD / "Common.lean")])
         res["common_rc"], res["common_out"] = rc2, out2
         from .py2lean import range_theorems, dim_theorems, RECORDS, DIM_RECORDS
-        res["range_text"] = range_theorems(RECORDS)
-        res["dim_text"] = dim_theorems(DIM_RECORDS)
+        gone = {d for e in errors for d in e.get("defs", [])}
+        res["range_text"] = range_theorems([r for r in RECORDS if r[0] not in gone])
+        res["dim_text"] = dim_theorems([r for r in DIM_RECORDS if r[0] not in gone])
     return res
 
 
 LAST_GEN = {}
-THM = re.compile(r"^(theorem|lemma)\s+([A-Za-z0-9_'.]+)")
-ERR = re.compile(r"^(.*?):(\d+):(\d+): (error|warning): (.*)$")
 
 
 def run(files, pid):
@@ -103,6 +136,17 @@ def run(files, pid):
             obls.append({"name": f"lean:extraction:C04:C03:C05:{q.split(':')[1]} is translated without dropping a clamp or a margin-dependent branch "
                                  f"(the inverse map is a bijection of all of R onto the open interval)", "function": q,
                          "verdict": "failed" if drops else "proved", "backend": "lean", "kind": "extraction", "ms": 0.0, "output": "; ".join(drops) or None})
+    if "C04.lean" in files:
+        # the forward maps may clamp, but only by the documented relative margin: clip(u, eps, 1 - eps) applied to the unit-interval value;
+        # any other clamp is a different side condition than the one the theorems are stated under
+        FWD = ("utils:logit", "transforms:BoundedTransform.to_unit_interval", "transforms:LogitTransform.forward", "transforms:ProbitTransform.forward",
+               "transforms:PeriodicTransform.forward", "transforms:AffineTransform.forward")
+        rx = re.compile(r"^clip\(\s*\w+\s*,\s*(?:self\.)?eps\s*,\s*1(?:\.0)?\s*-\s*(?:self\.)?eps\s*\) taken")
+        for q in FWD:
+            clips = [d for d in gen.get("dropped", {}).get(q, []) if d.startswith("clip(")]
+            odd = [d for d in clips if not rx.match(d)]
+            obls.append({"name": f"lean:extraction:C04:C03:{q.split(':')[1]}: the only clamp dropped from the forward map is the documented margin clip(u, eps, 1 - eps) on the unit-interval value",
+                         "function": q, "verdict": "failed" if odd else "proved", "backend": "lean", "kind": "extraction", "ms": 0.0, "output": "; ".join(odd) or None})
     for f in files:
         if f == "@invmaps":
             continue
